@@ -129,6 +129,15 @@ def run(chk):
             chk.fail("within-class scatter of the transformed data / K is not the identity (%s labels)" % kind, dict(ctxc, scatter=hexlist(Sw / K)))
         if not np.allclose(Wc, ref, rtol=1e-8, atol=max(1e-9, tolc) * np.abs(ref).max()):
             chk.fail("WCCN projection depends on the label values (%s labels vs 0..K-1 on the same partition)" % kind, ctxc)
+        # the same WCCN object fitted a second time, on the same partition with the classes RENAMED: the projection of a fresh object
+        if i % 3 == 0:
+            wr_ = WCCN()
+            wr_.fit(Xc, y)
+            y_ren = np.array([int(a) + 1000 for a in base], dtype=np.int64)
+            Wr2 = np.asarray(wr_.fit(Xc, y_ren).weights)
+            chk.count(1, key=("wccn, object re-used with other labels", K))
+            if not np.allclose(Wr2, ref, rtol=1e-8, atol=max(1e-9, tolc) * np.abs(ref).max()):
+                chk.fail("a WCCN object fitted a second time on the same partition with renamed classes gives another projection than a fresh object", dict(ctxc, second_labels=[int(a) for a in y_ren]))
         # the pseudo-inverse variant on full-rank data is the same projection (K >= 2 classes included)
         if i % 3 == 2:
             try:
